@@ -1055,7 +1055,54 @@ func c07Fired(r *Run, sig string, f func()) bool {
 	return false
 }
 
+
+// c07UnlWitness: theorem allocator_windows_disjoint_any_counts_refuted on a real CUResourceImpl — a CU
+// that reports an unlimited (-1) vector register count gets VGPR offsets from a bump counter, so the
+// second wavefront's lane rows are the first one's shifted by one lane. Also the facts the notes rely
+// on: the shipped timing CU reports limited counts, the emulation CU unlimited ones.
+func c07UnlWitness(r *Run) {
+	sh := c09Shape{wf: []int{10}, s: 3200, v: []int{-1}, lds: 65536}
+	ops := []string{"c07 alloc " + sh.String(), "r 1 1 16 256 0", "r 2 1 16 4 0"}
+	pool := shim.NewPool()
+	var outs []string
+	var live []c07Live
+	f := catch(func() {
+		pool.Register(&c09CU{name: "CU0", shape: sh})
+		for k, d := range []c09Dem{{nwf: 1, s: 16, v: 256, l: 0}, {nwf: 1, s: 16, v: 4, l: 0}} {
+			locs, ok := pool.Reserve(0, c09MakeWG(d))
+			if !ok {
+				outs = append(outs, "no")
+				continue
+			}
+			outs = append(outs, "ok:"+c09LocsString(locs))
+			live = append(live, c07Live{k + 1, d, append([]shim.WfLocation(nil), locs...)})
+		}
+	})
+	r.Checked("alloc-witness")
+	if f != "" || len(live) != 2 {
+		r.Failf("C07.alloc-witness.stale", strings.Join(ops, " ; "), "unlimited-count witness did not run: %s %v", f, outs)
+		return
+	}
+	wins, _, _, inside, disjoint, _ := c07Windows(live)
+	outs = append(outs, "wf="+strings.Join(wins, ","), "inside="+c07B(inside), "disjoint="+c07B(disjoint))
+	r.Case(strings.Join(ops, " ; "), strings.Join(outs, " "))
+	if live[1].locs[0].VGPROffset != 1024 || live[1].locs[0].SIMDID != live[0].locs[0].SIMDID {
+		r.Failf("C07.alloc-witness.stale", strings.Join(ops, " ; "), "second wavefront at simd %d voff %d, listed: same SIMD, voff 1024",
+			live[1].locs[0].SIMDID, live[1].locs[0].VGPROffset)
+	}
+	tc := cu.MakeBuilder().WithEngine(&fakeEngine{}).WithVectorMemModules(&mem.SinglePortMapper{Port: sim.RemotePort("VMem")}).Build("CUx")
+	ec := emu.NewComputeUnit("ECU", sim.NewSerialEngine(), insts.NewDisassembler(), nil, nil)
+	r.Checked("cu-counts")
+	if tc.SRegCount() != 3200 || fmt.Sprint(tc.VRegCounts()) != "[16384 16384 16384 16384]" || fmt.Sprint(tc.WfPoolSizes()) != "[10 10 10 10]" {
+		r.Failf("C07.cu-counts", "timing CU", "reports SRegCount %d VRegCounts %v WfPoolSizes %v", tc.SRegCount(), tc.VRegCounts(), tc.WfPoolSizes())
+	}
+	if ec.SRegCount() != -1 || fmt.Sprint(ec.VRegCounts()) != "[-1]" {
+		r.Failf("C07.cu-counts", "emulation CU", "reports SRegCount %d VRegCounts %v (listed: unlimited)", ec.SRegCount(), ec.VRegCounts())
+	}
+}
+
 func runC07Disp(r *Run, rng *Rng, replay string) {
+	c07UnlWitness(r)
 	// --- a decodable instruction with an operand outside the supported subset (theorem
 	// malformed_operand_decodable): s_load_dwordx4 vcc_lo…, bytes through the real decoder, the
 	// operand then through both stores — the open finding C07-malformed-operand-width is reachable
